@@ -24,7 +24,7 @@ ASSUMPTIONS = [
 ]
 BUDGET = {
     "quick": {"shards": 16, "examples": 400, "wall": 100},
-    "thorough": {"shards": 16, "examples": 20000, "wall": 1200},
+    "thorough": {"shards": 16, "examples": 200000, "wall": 900},
 }
 
 
